@@ -14,8 +14,11 @@ import (
 var (
 	c16Addrs  = []string{"A", "AB", "B", "Aé"} // prefix-related names on purpose
 	c16Tokens = []string{"", "T1", "T10", "T"}
-	c16Kinds  = []balance.BalanceType{balance.BalanceTypeToken, balance.BalanceTypeAllowed, balance.BalanceTypeGiven}
-	c16KName  = map[balance.BalanceType]string{balance.BalanceTypeToken: "Token", balance.BalanceTypeAllowed: "Allowed", balance.BalanceTypeGiven: "Given"}
+	c16Kinds  = []balance.BalanceType{balance.BalanceTypeToken, balance.BalanceTypeAllowed, balance.BalanceTypeGiven,
+		balance.BalanceTypeTokenLocked, balance.BalanceTypeAllowedLocked, balance.BalanceTypeTokenExternalLocked, balance.BalanceTypeAllowedExternalLocked}
+	c16KName  = map[balance.BalanceType]string{balance.BalanceTypeToken: "Token", balance.BalanceTypeAllowed: "Allowed", balance.BalanceTypeGiven: "Given",
+		balance.BalanceTypeTokenLocked: "TokenLocked", balance.BalanceTypeAllowedLocked: "AllowedLocked",
+		balance.BalanceTypeTokenExternalLocked: "TokenExternalLocked", balance.BalanceTypeAllowedExternalLocked: "AllowedExternalLocked"}
 )
 
 type c16Key struct{ K, A, T int } // indices into the tables above
@@ -34,6 +37,7 @@ type c16Step struct {
 	Kind   string  `json:"step"` // tx createIndex legacy owners byaddr gets
 	Mode   string  `json:"mode,omitempty"`
 	Commit bool    `json:"commit,omitempty"`
+	Join   bool    `json:"join,omitempty"` // runs in the batch of the cached transaction before it (the batch is flushed afterwards)
 	Ops    []c16Op `json:"ops,omitempty"`
 	Key    c16Key  `json:"key"`
 	Amt    int64   `json:"amt,omitempty"`
@@ -116,7 +120,10 @@ func c16Case(c *Ctx, steps []c16Step, nAddr int) error {
 	}
 	ch := w.Peer.Channels["tt"]
 	var hist, outs []string
-	for _, st := range steps {
+	// a batch that stays open for the next (joining) transaction
+	var openBS *cachestub.BatchCacheStub
+	var openRaw *TxStub
+	for si, st := range steps {
 		switch st.Kind {
 		case "tx":
 			raw := w.Peer.newStub(ch, w.Peer.NextTxID(), nil, nil)
@@ -144,15 +151,24 @@ func c16Case(c *Ctx, steps []c16Step, nAddr int) error {
 			if st.Mode == "cached" {
 				mode = "Cached"
 				bs := cachestub.NewBatchCacheStub(raw)
+				if st.Join && openBS != nil {
+					bs, raw = openBS, openRaw // the second (third ...) transaction of one batch
+					c.Count("tx_joining_an_open_batch")
+				}
 				tx := bs.NewTxCacheStub("t")
 				run(tx)
 				if st.Commit {
 					tx.Commit()
 				}
-				if err := bs.Commit(); err != nil {
-					return err
+				if si+1 < len(steps) && steps[si+1].Kind == "tx" && steps[si+1].Mode == "cached" && steps[si+1].Join {
+					openBS, openRaw = bs, raw
+				} else {
+					openBS, openRaw = nil, nil
+					if err := bs.Commit(); err != nil {
+						return err
+					}
+					commitWrites(ch, raw)
 				}
-				commitWrites(ch, raw)
 			} else {
 				run(raw)
 				if st.Commit {
@@ -262,7 +278,7 @@ func c16Case(c *Ctx, steps []c16Step, nAddr int) error {
 
 func genC16(c *Ctx) error {
 	c.ShardSize = 40
-	c.Notes["rule"] = "histories of 10-30 steps over 3 balance kinds x 4 addresses x 4 tokens (names that are prefixes of each other, the empty token): transactions of 1-4 put/add/sub/move operations through the tx/batch caches or on a raw stub, committed or discarded; optional legacy primaries written without inverse entries; createIndex via Invoke; every owners listing is followed by direct balance.Get of every address. Plus ledgers with 210-460 legacy holders of one kind (among the first ones also token-less balances), indexed and listed. Non-trivial: at least one inverse entry exists at the end."
+	c.Notes["rule"] = "histories of 10-30 steps over all 7 balance kinds (createIndex is called by the kind's name) x 4 addresses x 4 tokens (names that are prefixes of each other, the empty token): transactions of 1-4 put/add/sub/move operations through the tx/batch caches or on a raw stub, committed or discarded, now and then followed in the SAME batch by a second transaction that takes everything back; optional legacy primaries written without inverse entries; createIndex via Invoke; every owners listing is followed by direct balance.Get of every address. Plus ledgers with 210-460 legacy holders of one kind (among the first ones also token-less balances), indexed and listed. Non-trivial: at least one inverse entry exists at the end."
 	rng := c.Rng
 	n := c.N(240, 6000)
 	for i := 0; i < n; i++ {
@@ -318,6 +334,28 @@ func genC16(c *Ctx) error {
 					}
 				}
 				steps = append(steps, st)
+				if st.Mode == "cached" && st.Commit && rng.Intn(3) == 0 {
+					// a second transaction in the SAME batch that takes everything back (every balance returns to what the
+					// batch found)
+					inv := c16Step{Kind: "tx", Mode: "cached", Commit: true, Join: true}
+					for j := len(st.Ops) - 1; j >= 0; j-- {
+						o := st.Ops[j]
+						switch o.Op {
+						case "add":
+							inv.Ops = append(inv.Ops, c16Op{Op: "sub", K1: o.K1, K2: o.K2, Amt: o.Amt})
+						case "sub":
+							inv.Ops = append(inv.Ops, c16Op{Op: "add", K1: o.K1, K2: o.K2, Amt: o.Amt})
+						case "move":
+							k2 := o.K2
+							k2.T = o.K1.T
+							k1 := o.K1
+							inv.Ops = append(inv.Ops, c16Op{Op: "move", K1: k2, K2: k1, Amt: o.Amt})
+						}
+					}
+					if len(inv.Ops) > 0 {
+						steps = append(steps, inv)
+					}
+				}
 			case r < 65:
 				steps = append(steps, c16Step{Kind: "createIndex", Key: key()})
 			case r < 90:
